@@ -916,4 +916,217 @@ Proof.
       * repeat constructor; [apply readable_noref; apply string_wire_noref | apply readable_mode; exact Hnr].
 Qed.
 
+(* ---- response *)
+
+(* what the caller is entitled to for the results vs of the function, given its declared return types:
+   none / the single (shaped) value / element-wise with zero padding *)
+Definition expected_results (o : dopts) (rts : list pty) (vs : list gval) : list gval :=
+  match rts with
+  | [] => []
+  | [t] => [convert o t (shape vs)]
+  | _ => zipconv (convert o) (firstn (length vs) rts) vs ++ map zero (skipn (length vs) rts)
+  end.
+
+Definition results_fit (rts : list pty) (vs : list gval) : Prop :=
+  match rts with
+  | [] => True
+  | [t] => fits (shape vs) t /\ (forall ts, t <> TTuple ts)
+  | _ => (2 <= length vs)%nat /\ fits_all fits (firstn (length vs) rts) vs
+  end.
+
+Lemma service_encode_split so r rh ops :
+  service_encode fuel hp so r rh = CEOk ops ->
+  exists hops, enc_headers fuel hp (s_simple so) (with_simple (s_simple so) rh) = CEOk hops /\
+    match r with
+    | inr e => ops = hops ++ [OVal (WErr (string_wire (error_text (s_debug so) e))); OTag t_z]
+    | inl (GError msg) => ops = hops ++ [OVal (WErr (string_wire msg)); OTag t_z]
+    | inl v => exists st w, write_top hp (S fuel) (s_simple so) einit v = EOk st w /\
+                            ops = hops ++ [OTag t_R; OVal w; OTag t_z]
+    end.
+Proof.
+  unfold service_encode. fold (with_simple (s_simple so) rh). intros H.
+  destruct (enc_headers fuel hp (s_simple so) (with_simple (s_simple so) rh)) as [hops|]; [|discriminate].
+  exists hops. split; [reflexivity|].
+  destruct r as [v|e].
+  - destruct v; try (cbn [write_string] in H; inversion H; reflexivity);
+      match type of H with
+      | match ?X with _ => _ end = _ => destruct X as [st w| |] eqn:E; try discriminate;
+                                        inversion H; subst; exists st, w; split; [first [exact E | reflexivity]|reflexivity]
+      end.
+  - cbn [write_string] in H. inversion H; reflexivity.
+Qed.
+
+Lemma response_ops_ok so r rh ops :
+  heap_ok hp = true -> (match r with inl v => gval_ok v = true | inr _ => True end) -> values_ok (map snd rh) ->
+  service_encode fuel hp so r rh = CEOk ops -> ops_ok ops = true.
+Proof.
+  intros Hh Hr Hv H. destruct (service_encode_split _ _ _ _ H) as (hops & Eh & Hops).
+  assert (Hv1 : forallb gval_ok (map snd (with_simple (s_simple so) rh)) = true).
+  { unfold with_simple. destruct (s_simple so); [apply map_snd_hset; auto|exact Hv]. }
+  pose proof (headers_ops_ok _ _ _ Hh Hv1 Eh) as Hho.
+  assert (Herr : forall msg, ops_ok (hops ++ [OVal (WErr (string_wire msg)); OTag t_z]) = true).
+  { intros msg. rewrite ops_ok_app, Hho. unfold ops_ok. cbn [strip forallb item_ok tok_ok].
+    rewrite is_ptag_z, (string_wire_ok _ (str_ok_all msg)). reflexivity. }
+  destruct r as [v|e]; [|rewrite Hops; apply Herr].
+  destruct v; try (rewrite Hops; apply Herr);
+    destruct Hops as (st & w & E & ->); rewrite ops_ok_app, Hho; unfold ops_ok; cbn [strip forallb item_ok];
+    rewrite is_ptag_R, is_ptag_z, (write_top_tok_ok _ hp _ _ _ _ _ Hr Hh E); reflexivity.
+Qed.
+
+(* reading a message that starts with a header segment or not *)
+Lemma client_decode_frame co rts so rh hops tail :
+  heap_ok hp = true -> values_ok (map snd rh) -> hfind s_simple_key rh = None ->
+  Forall (fun kv => fits (snd kv) TIface) rh -> fits (GBool true) TIface ->
+  enc_headers fuel hp (s_simple so) (with_simple (s_simple so) rh) = CEOk hops ->
+  ops_ok (hops ++ tail) = true ->
+  (exists i r, strip tail = i :: r /\ match i with ITag t => Byte.eqb t t_H = false | IVal _ => True end) ->
+  exists h0 tr0,
+    client_decode io_dec io_dec_hdrs zero co rts (emit_ops (hops ++ tail)) =
+      client_decode_body io_dec zero co rts h0 tr0 (strip tail) /\
+    h0 = conv_headers (c_dec co) (with_simple (s_simple so) rh) /\
+    get_bool s_simple_key h0 = s_simple so /\
+    ((hops = [] /\ tr0 = []) \/
+     (exists hw, hops = [OTag t_H; OVal hw; OReset] /\ tr0 = [DNext t_H; DRead false hw; DReset] /\
+                 scope_closed [hw] = true)).
+Proof.
+  intros Hh Hv Hres Hfit Hfb Eh Hok (i & r & Est & Hi).
+  set (h1 := with_simple (s_simple so) rh) in *.
+  assert (Hfit1 : Forall (fun kv => fits (snd kv) TIface) h1).
+  { unfold h1, with_simple. destruct (s_simple so); [apply fits_bool_simple; auto|exact Hfit]. }
+  assert (Hflag : get_bool s_simple_key (conv_headers (c_dec co) h1) = s_simple so)
+    by (apply get_bool_with_simple; exact Hres).
+  exists (conv_headers (c_dec co) h1).
+  unfold client_decode. rewrite emit_ops_strip, (parse_msg_emit _ Hok).
+  unfold client_decode_items. rewrite strip_app.
+  destruct (enc_headers_cases _ _ _ Eh) as [[Hnil ->]|(Hne & sth & hw & Ehw & ->)].
+  - exists []. cbn [strip app]. rewrite Est.
+    assert (Erh : read_headers io_dec_hdrs (c_dec co) (i :: r) = (Some [], i :: r, [])).
+    { destruct i as [t|w]; [apply read_headers_skip; exact Hi|apply read_headers_val]. }
+    rewrite Erh. rewrite Hnil. cbn [conv_headers map]. rewrite Hnil in Hflag. cbn [conv_headers map] in Hflag.
+    split; [reflexivity|]. split; [reflexivity|]. split; [exact Hflag|]. left. auto.
+  - exists [DNext t_H; DRead false hw; DReset].
+    pose proof (Hhdrs (c_dec co) (s_simple so) false h1 _ _ _ ltac:(intros Hx; discriminate) Hfit1 Ehw) as Hdh.
+    fold (conv_headers (c_dec co) h1) in Hdh.
+    cbn [strip app]. rewrite read_headers_H, Hdh.
+    destruct (top_scope_closed _ _ _ _ _ Ehw) as [Hhcl _].
+    split; [reflexivity|]. split; [reflexivity|]. split; [exact Hflag|]. right. exists hw. auto.
+Qed.
+
+Theorem response_roundtrip_values : forall so co rts vs rh ops,
+  heap_ok hp = true -> gval_ok (shape vs) = true -> values_ok (map snd rh) ->
+  hfind s_simple_key rh = None ->
+  Forall (fun kv => fits (snd kv) TIface) rh -> fits (GBool true) TIface ->
+  is_error_value (shape vs) = false -> results_fit rts vs ->
+  service_encode fuel hp so (inl (shape vs)) rh = CEOk ops ->
+  fst (client_decode io_dec io_dec_hdrs zero co rts (emit_ops ops)) =
+  CDRes (conv_headers (c_dec co) (with_simple (s_simple so) rh)) (expected_results (c_dec co) rts vs).
+Proof.
+  intros so co rts vs rh ops Hh Hg Hv Hres Hfit Hfb Hne Hrf H.
+  pose proof (response_ops_ok so (inl (shape vs)) rh ops Hh Hg Hv H) as Hok.
+  destruct (service_encode_split _ _ _ _ H) as (hops & Eh & Hops).
+  assert (Hops' : exists st w, write_top hp (S fuel) (s_simple so) einit (shape vs) = EOk st w /\
+                               ops = hops ++ [OTag t_R; OVal w; OTag t_z]).
+  { destruct (shape vs); try exact Hops. discriminate. }
+  clear Hops. destruct Hops' as (st & w & Ew & ->).
+  destruct (client_decode_frame co rts so rh hops [OTag t_R; OVal w; OTag t_z] Hh Hv Hres Hfit Hfb Eh Hok)
+    as (h0 & tr0 & -> & -> & Hflag & _).
+  { exists (ITag t_R), [IVal w; ITag t_z]. split; reflexivity. }
+  cbn [strip]. unfold client_decode_body. change (Byte.eqb t_R t_R) with true. cbn iota. rewrite Hflag.
+  unfold expected_results, results_fit in *.
+  destruct rts as [|t0 [|t1 rts]].
+  - reflexivity.
+  - destruct Hrf as [Hf Hnt].
+    rewrite (Hval (c_dec co) (s_simple so) (s_simple so) t0 (shape vs) _ _ _ ltac:(intros Hx; exact Hx) Hf Hnt Ew).
+    reflexivity.
+  - destruct Hrf as [Hlen Hf].
+    assert (Es : shape vs = GSlice vs) by (destruct vs as [|v1 [|v2 vs]]; cbn in Hlen; try lia; reflexivity).
+    rewrite Es in Ew. destruct (write_slice_shape _ _ _ _ _ _ _ Ew) as (ws & -> & Hl).
+    rewrite Hl.
+    rewrite (Htuple (c_dec co) (s_simple so) (s_simple so) (firstn (length vs) (t0 :: t1 :: rts)) vs _ _ _
+               ltac:(intros Hx; exact Hx) ltac:(rewrite firstn_length; lia) Hf Ew).
+    reflexivity.
+Qed.
+
+(* an error: the text the service chose arrives as the error's message; "timeout" is mapped to ErrTimeout,
+   whose message is the same text *)
+Theorem response_roundtrip_error : forall so co rts e rh ops,
+  heap_ok hp = true -> values_ok (map snd rh) -> hfind s_simple_key rh = None ->
+  Forall (fun kv => fits (snd kv) TIface) rh -> fits (GBool true) TIface ->
+  service_encode fuel hp so (inr e) rh = CEOk ops ->
+  fst (client_decode io_dec io_dec_hdrs zero co rts (emit_ops ops)) =
+  CDErr (conv_headers (c_dec co) (with_simple (s_simple so) rh)) (error_text (s_debug so) e)
+        (bytes_eqb (error_text (s_debug so) e) s_timeout).
+Proof.
+  intros so co rts e rh ops Hh Hv Hres Hfit Hfb H.
+  pose proof (response_ops_ok so (inr e) rh ops Hh I Hv H) as Hok.
+  destruct (service_encode_split _ _ _ _ H) as (hops & Eh & ->).
+  destruct (client_decode_frame co rts so rh hops _ Hh Hv Hres Hfit Hfb Eh Hok)
+    as (h0 & tr0 & -> & -> & Hflag & _).
+  { eexists (IVal _), _. split; [reflexivity|exact I]. }
+  cbn [strip]. unfold client_decode_body. rewrite dec_string_wire. reflexivity.
+Qed.
+
+(* a result that IS an error value is sent with the error tag: the caller gets a failure, not the value *)
+Theorem response_error_value : forall so co rts msg rh ops,
+  heap_ok hp = true -> values_ok (map snd rh) -> hfind s_simple_key rh = None ->
+  Forall (fun kv => fits (snd kv) TIface) rh -> fits (GBool true) TIface ->
+  service_encode fuel hp so (inl (GError msg)) rh = CEOk ops ->
+  fst (client_decode io_dec io_dec_hdrs zero co rts (emit_ops ops)) =
+  CDErr (conv_headers (c_dec co) (with_simple (s_simple so) rh)) msg (bytes_eqb msg s_timeout).
+Proof.
+  intros so co rts msg rh ops Hh Hv Hres Hfit Hfb H.
+  pose proof (response_ops_ok so (inl (GError msg)) rh ops Hh eq_refl Hv H) as Hok.
+  destruct (service_encode_split _ _ _ _ H) as (hops & Eh & ->).
+  destruct (client_decode_frame co rts so rh hops _ Hh Hv Hres Hfit Hfb Eh Hok)
+    as (h0 & tr0 & -> & -> & Hflag & _).
+  { eexists (IVal _), _. split; [reflexivity|exact I]. }
+  cbn [strip]. unfold client_decode_body. rewrite dec_string_wire. reflexivity.
+Qed.
+
+Theorem response_aligned : forall so co rts r rh ops,
+  heap_ok hp = true -> (match r with inl v => gval_ok v = true | inr _ => True end) -> values_ok (map snd rh) ->
+  hfind s_simple_key rh = None ->
+  Forall (fun kv => fits (snd kv) TIface) rh -> fits (GBool true) TIface ->
+  rts <> [] ->
+  service_encode fuel hp so r rh = CEOk ops ->
+  aligned ops (snd (client_decode io_dec io_dec_hdrs zero co rts (emit_ops ops))).
+Proof.
+  intros so co rts r rh ops Hh Hr Hv Hres Hfit Hfb Hrts H.
+  pose proof (response_ops_ok so r rh ops Hh Hr Hv H) as Hok.
+  destruct (service_encode_split _ _ _ _ H) as (hops & Eh & Hops).
+  assert (Herr : forall msg, ops = hops ++ [OVal (WErr (string_wire msg)); OTag t_z] ->
+            aligned ops (snd (client_decode io_dec io_dec_hdrs zero co rts (emit_ops ops)))).
+  { intros msg ->.
+    destruct (client_decode_frame co rts so rh hops _ Hh Hv Hres Hfit Hfb Eh Hok)
+      as (h0 & tr0 & -> & -> & Hflag & Hh0).
+    { eexists (IVal _), _. split; [reflexivity|exact I]. }
+    cbn [strip]. unfold client_decode_body. rewrite dec_string_wire. cbn [snd].
+    assert (Hcl : scope_closed [WErr (string_wire msg)] = true).
+    { unfold scope_closed. cbn [closed_seq closed]. rewrite string_wire_closed. reflexivity. }
+    destruct Hh0 as [[-> ->]|(hw & -> & -> & Hhcl)]; unfold aligned, dscopes, scopes;
+      cbn [app dscopes_aux scopes_aux rev map snd].
+    - split; [reflexivity|]. split; repeat constructor; exact Hcl.
+    - split; [reflexivity|]. split; repeat constructor; assumption. }
+  destruct r as [v|e]; [|eapply Herr; exact Hops].
+  assert (Hv' : (exists msg, ops = hops ++ [OVal (WErr (string_wire msg)); OTag t_z]) \/
+                (exists st w, write_top hp (S fuel) (s_simple so) einit v = EOk st w /\
+                              ops = hops ++ [OTag t_R; OVal w; OTag t_z])).
+  { destruct v; try (right; exact Hops). left. eexists; exact Hops. }
+  clear Hops. destruct Hv' as [(msg & Hm)|(st & w & Ew & ->)]; [eapply Herr; exact Hm|].
+  destruct (client_decode_frame co rts so rh hops _ Hh Hv Hres Hfit Hfb Eh Hok)
+    as (h0 & tr0 & -> & -> & Hflag & Hh0).
+  { exists (ITag t_R), [IVal w; ITag t_z]. split; reflexivity. }
+  destruct (top_scope_closed _ _ _ _ _ Ew) as [Hcl Hnr].
+  cbn [strip]. unfold client_decode_body. change (Byte.eqb t_R t_R) with true. cbn iota. rewrite Hflag.
+  match goal with |- aligned _ (snd ?t) => assert (Esnd : snd t = tr0 ++ [DNext t_R; DRead (s_simple so) w]) end.
+  { destruct rts as [|t0 [|t1 r']]; [contradiction| |].
+    - destruct (io_dec _ _ _ _); reflexivity.
+    - destruct w; try (destruct (io_dec _ _ _ _); reflexivity). }
+  rewrite Esnd.
+  destruct Hh0 as [[-> ->]|(hw & -> & -> & Hhcl)]; unfold aligned, dscopes, scopes;
+    cbn [app dscopes_aux scopes_aux rev map snd].
+  - split; [reflexivity|]. split; repeat constructor; [exact Hcl|apply readable_mode; exact Hnr].
+  - split; [reflexivity|]. split; repeat constructor; try assumption. apply readable_mode; exact Hnr.
+Qed.
+
 End C07.
